@@ -152,7 +152,7 @@ def render(i, s):
         TIMES[tm][1], TIMES[tm][2], TIMES[tm][3], "true" if seq else "false", "true" if b_first else "false",
         {"PLAIN": "B_PLAIN", "CORO": "B_CORO", None: "B_NONE"}[bk], b_arity, b_k, text)
     return ("#if Q_HAS(%d)\nstatic void s%d(Ctx& c) { static const SiteInfo I%s; if (c.begin(I)) return; SITE_PROLOGUE(MK_%s_%s); %s "
-            "c.drive(eA.get(), %s, %s, %s); }\nstatic const Reg r%d{%d, &s%d};\n#endif" % (i, i, info, ty, "l" if lazy else "e", exps.strip(), call_expr(arity, ty, lazy), eB, callB, i, i, i))
+            "c.drive(eA.get(), %s, %s, %s, [&] { %s }); }\nstatic const Reg r%d{%d, &s%d};\n#endif" % (i, i, info, ty, "l" if lazy else "e", exps.strip(), call_expr(arity, ty, lazy), eB, callB, "eA.reset(); eB.reset();" if bk else "eA.reset();", i, i, i))
 
 
 def build_sites():
